@@ -109,7 +109,15 @@ def pattern_call(it, pat, name, args, kwargs):
         lang = tr.match_lang(name)
         if not ctx.branch(z3.InRe(s.e, lang)):
             return VNone
-        return build_match(it, tr, s, name)
+        # matching is deterministic: the same pattern on the same subject
+        # yields the same groups (one decomposition per path, shared)
+        cache = ctx.ghost.setdefault('match_cache', {})
+        key = (id(pat), name, s.e.get_id())
+        hit = cache.get(key)
+        if hit is None:
+            hit = (build_match(it, tr, s, name), s.e, pat)   # owns its keys
+            cache[key] = hit
+        return hit[0]
     raise Unsupported('Pattern.%s' % name)
 
 
